@@ -286,18 +286,49 @@ def drive(ctx, name, strategy, body, max_examples, examples=(), shrink=True, rev
     ring = collections.deque(maxlen=8)
     count = [0]
 
+    first = []          # the first violation raised in this drive (see the except clause around run())
+
+    def guarded(case):
+        """body(case); an exception whose innermost frame is inside the code under test is library
+        behaviour on this input and becomes a violation here (unless it is a listed known finding)."""
+        try:
+            body(case)
+        except Violation as v:
+            if not first:
+                first.append(v)
+            raise
+        except HarnessError:
+            raise
+        except Exception as e:  # noqa
+            if not in_repo_frame(e.__traceback__):
+                raise
+            sub, cs = ctx.current()
+            kind = "exception:" + type(e).__name__
+            k = {"sub": sub, "kind": kind}
+            f = match_known(ctx.findings, ctx.prop, k)
+            if f is not None:
+                ctx.known_hits[f.get("id", "?")] += 1
+                return
+            v = Violation(ctx.prop, sub or name, kind, cs if cs is not None else case,
+                          f"unexpected {type(e).__name__}: {e}"[:500], k)
+            if not first:
+                first.append(v)
+            raise v from None
+
     def wrapped(case):
-        body(case)
+        guarded(case)
         ring.append(case)
         count[0] += 1
         if revisit and count[0] % revisit == 0 and len(ring) >= 4:
             old = ring[0]
             try:
-                body(old)
+                guarded(old)
             except Violation as v:
-                raise Violation(v.prop, v.sub, v.kind + ":on_revisit", v.case,
-                                "[only when the case is evaluated again after %d other cases in the same process] %s"
-                                % (len(ring) - 1, v.message), dict(v.key, kind=v.kind + ":on_revisit")) from None
+                v2 = Violation(v.prop, v.sub, v.kind + ":on_revisit", v.case,
+                               "[only when the case is evaluated again after %d other cases in the same process] %s"
+                               % (len(ring) - 1, v.message), dict(v.key, kind=v.kind + ":on_revisit"))
+                first[:] = [v2]
+                raise v2 from None
             ctx.label("revisited_cases")
 
     for ex in examples:
@@ -323,7 +354,17 @@ def drive(ctx, name, strategy, body, max_examples, examples=(), shrink=True, rev
     def run(case):
         wrapped(case)
 
-    run()
+    try:
+        run()
+    except Violation:
+        raise
+    except BaseException:  # noqa
+        # Hypothesis re-executes a failing example; a library whose answer depends on what ran before
+        # may then behave differently and Hypothesis reports the test as flaky.  The violation that was
+        # observed is the finding; the flakiness is its symptom.
+        if first:
+            raise first[0] from None
+        raise
 
 
 # --------------------------------------------------------------------------------------
